@@ -183,7 +183,7 @@ func genC04(t *rapid.T) c04Case {
 	col := getCollector("C04", "TestC04_Update")
 	ntests := rapid.IntRange(1, 3).Draw(t, "ntests")
 	names := withOtherRunners(t, genNamePool(t, ntests+1))
-	o := textOpts{escapeToken: true, headerLike: true, names: names, maxLines: 5}
+	o := textOpts{escapeToken: true, headerLike: true, names: names, maxLines: 5, long: true}
 	c := c04Case{Cfg: CfgSpec{Dir: "snaps", Filename: "f"}}
 	if rapid.IntRange(0, 3).Draw(t, "ext") == 0 {
 		c.Cfg.Ext = ".x"
